@@ -27,3 +27,8 @@ NOT_DECIDED = ["floating-point round-off and conditioning", "convergence of twob
 # the plumbing this property's claim runs through (contracts/chain.py): listed here too, so that a change inside it is caught by THIS check
 from . import chain as CH   # noqa: E402
 CH.extend(CONTRACTS, CH.readers() + CH.plumbing(('ll',)) + CH.tables(pack=True, unpack=False) + CH.wrapper())
+
+# every call prepares and uses THIS call's data, whatever earlier calls left on the sampler (contract stated in c08.py)
+from . import c08 as _C08H   # noqa: E402
+from .chain import clone as _clone   # noqa: E402
+CONTRACTS += [_clone(_c, home="c08") for _c in _C08H.make_helper]
